@@ -1,6 +1,7 @@
 import GSProofs.Lemmas.ConcurrentCleanItem
 import GSProofs.Lemmas.LoaderReplay
 import GSProofs.Lemmas.ResponderTracker
+import GSProofs.Lemmas.ExchangeComplete
 /-!
 Property C20, completeness clause of `CleanAt` — the alignment invariant of the run of ONE request whose
 root the requestor does not hold when it is issued (no locally loaded prefix, skip 0).
@@ -128,32 +129,36 @@ theorem respStep_end (t : PeerTracker) (rem : List Cid) (i : Nat) (rr : RespRun)
 theorem respItemsW_nil (f : Cid → Bool) (seen : List Cid) (w : Nat) : respItemsW f [] seen w = [] := by
   rw [respItemsW]
 
-theorem respItemsW_ne_nil (f : Cid → Bool) (n : LNode) (post : LT) (seen : List Cid) (w : Nat) :
-    respItemsW f (n :: post) seen w ≠ [] := by
-  rw [respItemsW]
-  split <;> exact List.cons_ne_nil _ _
+theorem respItemsW_ne_nil (f : Cid → Bool) (l : LT) (hl : l ≠ []) (seen : List Cid) (w : Nat) :
+    respItemsW f l seen w ≠ [] := by
+  cases l with
+  | nil => exact absurd rfl hl
+  | cons n post =>
+    rw [respItemsW]
+    split <;> exact List.cons_ne_nil _ _
 
 /-- **alignment** of the run of request `i` (no locally loaded prefix): either its executor is parked on
-    the node `n` at its cursor and the honest stream for the cursor is exactly what is in flight followed
+    the node `n` at its cursor (the verifier still has `remPre` to replay) and the honest stream for the cursor is exactly what is in flight followed
     by what the responder will still produce, or the request is over -/
-inductive AL (i : Nat) (s : Sys) : Prop
-  | running (r : Requestor.State) (rr : RespRun) (ws : List Wire) (n : LNode) (post : LT)
+inductive AL (R : TRec) (i : Nat) (s : Sys) : Prop
+  | running (r : Requestor.State) (rr : RespRun) (ws : List Wire) (n : LNode) (post remPre : LT)
       (seenQ seenR : List Cid) (wR N : Nat)
       (hr : s.reqs[i]? = some r) (hrr : s.resp[i]? = some rr) (hc : s.chan[i]? = some ws)
-      (pk : PK r n post)
+      (pk : PK0 r n post) (vs : VS R r.L remPre)
+      (held : ∀ m ∈ remPre, m.cid ∈ s.rem ∧ Has (storeOf s i) m.cid)
       (stale : r.L.unfollowed = [] ∨ ∀ m ∈ n :: post, below r.L.unfollowed m.path = false)
       (wf : WF (n :: post)) (dep : ∀ m ∈ n :: post, m.depth = 0 → m.cid ∈ s.rem)
       (seen : ∀ c ∈ seenQ, Has (storeOf s i) c)
       (ti : rr.active = true → TI s.tracker i seenR wR N)
       (rm : rr.rootMiss = false) (rdep : ∀ m ∈ rr.todo, m.depth = 0 → m.cid ∈ s.rem)
-      (al : respItemsW (remf s.rem) (n :: post) seenQ 0 =
+      (al : respItemsW (remf s.rem) (remPre ++ n :: post) seenQ remPre.length =
               itemsOf ws ++ (if rr.active = true then respItemsW (remf s.rem) rr.todo seenR wR else []))
       (w14 : rr.active = true → ∀ w ∈ ws, w.status = 14)
       (wend : rr.active = false → ∃ iws wt, ws = iws ++ [wt] ∧ (∀ w ∈ iws, w.status = 14) ∧ wt.md = [])
-      (wok : ∀ w ∈ ws, w.status = 14 → ∃ it, buildItems w.md w.blocks = [it]) : AL i s
-  | over (h : ∀ r, s.reqs[i]? = some r → r.phase ≠ .running) : AL i s
+      (wok : ∀ w ∈ ws, w.status = 14 → ∃ it, buildItems w.md w.blocks = [it]) : AL R i s
+  | over (h : ∀ r, s.reqs[i]? = some r → r.phase ≠ .running) : AL R i s
 
-theorem AL_resp (i : Nat) (s : Sys) (h : AL i s) : AL i (Concurrent.step s (.resp i)) := by
+theorem AL_resp (R : TRec) (i : Nat) (s : Sys) (h : AL R i s) : AL R i (Concurrent.step s (.resp i)) := by
   cases h with
   | over h =>
     refine .over ?_
@@ -163,11 +168,11 @@ theorem AL_resp (i : Nat) (s : Sys) (h : AL i s) : AL i (Concurrent.step s (.res
       cases ha : rr.active with
       | false => rw [resp_noop s i (fun rr' hx => by rw [hr] at hx; cases hx; exact ha)]; exact h
       | true => rw [resp_eq s i rr hr ha]; exact h
-  | running r rr ws n post seenQ seenR wR N hr hrr hc pk stale wf dep seen ti rm rdep al w14 wend wok =>
+  | running r rr ws n post remPre seenQ seenR wR N hr hrr hc pk vs held stale wf dep seen ti rm rdep al w14 wend wok =>
     cases ha : rr.active with
     | false =>
       rw [resp_noop s i (fun rr' hx => by rw [hrr] at hx; cases hx; exact ha)]
-      exact .running r rr ws n post seenQ seenR wR N hr hrr hc pk stale wf dep seen ti rm rdep al w14 wend wok
+      exact .running r rr ws n post remPre seenQ seenR wR N hr hrr hc pk vs held stale wf dep seen ti rm rdep al w14 wend wok
     | true =>
       rw [resp_eq s i rr hrr ha]
       have hgd : s.chan.getD i [] = ws := by rw [List.getD_eq_getElem?_getD, hc]; rfl
@@ -182,7 +187,7 @@ theorem AL_resp (i : Nat) (s : Sys) (h : AL i s) : AL i (Concurrent.step s (.res
       | nil =>
         obtain ⟨e1, e2, e3, e4, e5⟩ := respStep_end s.tracker s.rem i rr rm htd
         rw [htd, respItemsW_nil, List.append_nil] at al
-        refine .running r _ _ n post seenQ seenR wR N hr hrr' hc' pk stale wf dep seen
+        refine .running r _ _ n post remPre seenQ seenR wR N hr hrr' hc' pk vs held stale wf dep seen
           (fun hx => by rw [e3] at hx; cases hx) e4 (by rw [e5]; intro m hm; cases hm) ?_
           (fun hx => by rw [e3] at hx; cases hx) (fun _ => ⟨ws, _, rfl, w14 ha, e1⟩) ?_
         · rw [e3, itemsOf_append]
@@ -201,7 +206,7 @@ theorem AL_resp (i : Nat) (s : Sys) (h : AL i s) : AL i (Concurrent.step s (.res
         obtain ⟨it, seenR', k1, k2, k3, k4, k5, k6, k7⟩ := respStep_item s.tracker s.rem i rr m rest seenR wR N (ti ha) rm htd
           (rdep m (by rw [htd]; exact List.mem_cons_self))
         rw [htd, k3] at al
-        refine .running r _ _ n post seenQ seenR' (wR - 1) N hr hrr' hc' pk stale wf dep seen
+        refine .running r _ _ n post remPre seenQ seenR' (wR - 1) N hr hrr' hc' pk vs held stale wf dep seen
           (fun _ => k4) k6 (fun x hx => rdep x (by rw [htd]; exact List.mem_cons_of_mem _ (k7 x hx))) ?_
           ?_ (fun hx => by rw [k5, ha] at hx; cases hx) ?_
         · rw [k5, ha, itemsOf_append]
@@ -248,8 +253,8 @@ theorem EVM_resp (i : Nat) (s : Sys) (h : EVM i s) : EVM i (Concurrent.step s (.
 theorem Has_of_storeGet {S : List (Cid × Blk)} {c : Cid} {b : Blk} (h : storeGet S c = some b) : Has S c := by
   unfold Has; rw [h]; rfl
 
-theorem AL_deliver (i : Nat) (s : Sys) (hG : GOK s) (h : AL i s) (he : EVM i s) :
-    AL i (Concurrent.step s (.deliver i)) ∧ EVM i (Concurrent.step s (.deliver i)) := by
+theorem AL_deliver (R : TRec) (i : Nat) (s : Sys) (hG : GOK s) (h : AL R i s) (he : EVM i s) :
+    AL R i (Concurrent.step s (.deliver i)) ∧ EVM i (Concurrent.step s (.deliver i)) := by
   cases h with
   | over h =>
     cases hr : s.reqs[i]? with
@@ -280,16 +285,16 @@ theorem AL_deliver (i : Nat) (s : Sys) (hG : GOK s) (h : AL i s) (he : EVM i s) 
             rcases mem_missing_set _ _ _ _ hm with hm | hm
             · exact he c p hm
             · rw [hmsg] at hm; simp [missingOf] at hm
-  | running r rr ws n post seenQ seenR wR N hr hrr hc pk stale wf dep seen ti rm rdep al w14 wend wok =>
+  | running r rr ws n post remPre seenQ seenR wR N hr hrr hc pk vs held stale wf dep seen ti rm rdep al w14 wend wok =>
     cases ws with
     | nil =>
       rw [deliver_noop_chan s i (by rw [List.getD_eq_getElem?_getD, hc]; rfl)]
-      exact ⟨.running r rr [] n post seenQ seenR wR N hr hrr hc pk stale wf dep seen ti rm rdep al w14 wend wok, he⟩
+      exact ⟨.running r rr [] n post remPre seenQ seenR wR N hr hrr hc pk vs held stale wf dep seen ti rm rdep al w14 wend wok, he⟩
     | cons w ws' =>
       rw [deliver_eq s i r w ws' hr hc]
       obtain ⟨f1, f2, f3, f4, f5, f6, f7, f8⟩ := delivOut_fields s i r w ws' hG.own
       have hS : storeOf s i = s.store := storeOf_shared s i hG.own
-      rw [hS] at seen
+      rw [hS] at seen held
       have hS' : storeOf (delivOut s i r w ws') i = (reqMsg r s.store w).1.L.store := by
         rw [storeOf_shared _ i f1, f2]
       by_cases h14 : w.status = 14
@@ -328,111 +333,145 @@ theorem AL_deliver (i : Nat) (s : Sys) (hG : GOK s) (h : AL i s) (he : EVM i s) 
           rw [f5] at hm
           simp only [setAt] at hm
           exact mem_missing_set _ _ _ _ hm
-        rw [respItemsW] at al
-        by_cases hp : remf s.rem n.cid = true
-        · -- the responder holds the block
+        cases remPre with
+        | cons m pre' =>
+          obtain ⟨hmrem, hmhas⟩ := held m List.mem_cons_self
+          rw [List.cons_append, respItemsW] at al
+          have hp : remf s.rem m.cid = true := by simpa [remf] using hmrem
           simp only [hp, if_true, List.cons.injEq] at al
           obtain ⟨hit', htail⟩ := al
-          have hnrem : n.cid ∈ s.rem := by simpa [remf] using hp
-          have hdata : ∃ b, (it.block = some b ∨ (it.block = none ∧ storeGet s.store n.cid = some b)) := by
-            rw [← hit']
-            by_cases hsq : seenQ.contains n.cid = true
-            · have hmem : n.cid ∈ seenQ := by simpa using hsq
-              have := seen n.cid hmem
-              unfold Has at this
-              cases hg : storeGet s.store n.cid with
-              | none => rw [hg] at this; cases this
-              | some b => exact ⟨b, Or.inr ⟨by simp [hmem], rfl⟩⟩
-            · have hnm : n.cid ∉ seenQ := by simpa using hsq
-              exact ⟨n.cid, Or.inl (by simp [hnm])⟩
-          obtain ⟨b, hb⟩ := hdata
-          obtain ⟨m1, m2, m3, m4, m5⟩ :=
-            (message_item r n post s.store it w.md w.blocks hbi pk hst (by rw [← hit']) _ hmeq).1 b hb
-          have hsub : Sub s.store (reqMsg r s.store w).1.L.store := by
-            rw [m3]
-            cases it.block with
-            | none => exact Sub.refl _
-            | some b' => exact Sub_cons_self _ _ _
-          have hhas : Has (reqMsg r s.store w).1.L.store n.cid := by
-            rw [m3]
-            rcases hb with hb | ⟨hb1, hb2⟩
-            · rw [hb]; simp only; rw [Has_cons]; exact Or.inl rfl
-            · rw [hb1]; exact Has_of_storeGet hb2
+          obtain ⟨m1, m2, m3, m4, m5⟩ := message_replay R r n post s.store m pre' it w.md w.blocks hbi pk vs
+            (by rw [← hit']) (by rw [← hit']) _ hmeq
           constructor
-          · cases post with
-            | nil =>
-              refine .over ?_
-              intro r' hr''
-              rw [hr'] at hr''
-              cases hr''
-              rw [m4 rfl]
-              intro hx; cases hx
-            | cons m post' =>
-              obtain ⟨k1, k2⟩ := m5 m post' rfl
-              refine .running _ rr ws' m post' (n.cid :: seenQ) seenR wR N hr' hrr' hc' k1 ?_ wf.2.2
-                (fun x hx hd => by rw [f8]; exact dep x (List.mem_cons_of_mem _ hx) hd) ?_
-                (by rw [f7]; exact ti) rm (by rw [f8]; exact rdep) (by rw [f8]; exact htail) w14' wend' wok'
-              · left
-                rw [k2, ← hit']
-                rfl
-              · intro c hcm
-                rw [hS']
-                rcases List.mem_cons.mp hcm with rfl | hcm
-                · exact hhas
-                · exact hsub c (seen c hcm)
+          · refine .running _ rr ws' n post pre' (m.cid :: seenQ) seenR wR N hr' hrr' hc' m2 m5 ?_ ?_ wf
+              (fun x hx hd => by rw [f8]; exact dep x hx hd) ?_ (by rw [f7]; exact ti) rm (by rw [f8]; exact rdep)
+              ?_ w14' wend' wok'
+            · intro x hx
+              rw [f8, hS', m4]
+              exact held x (List.mem_cons_of_mem _ hx)
+            · rw [m3]; exact stale
+            · intro c hcm
+              rw [hS', m4]
+              rcases List.mem_cons.mp hcm with rfl | hcm
+              · exact hmhas
+              · exact seen c hcm
+            · rw [f8]
+              simpa using htail
           · intro c p hm
             rw [f8]
             rcases hevs c p hm with hm | hm
             · exact he c p hm
             · rw [m1] at hm; cases hm
-        · -- the responder lacks the block
-          have hp' : remf s.rem n.cid = false := by simpa using hp
-          simp only [hp', Bool.false_eq_true, if_false, List.cons.injEq] at al
-          obtain ⟨hit', htail⟩ := al
-          have hnrem : n.cid ∉ s.rem := by simpa [remf] using hp'
-          have hnone : storeGet s.store n.cid = none := by
-            cases hg : storeGet s.store n.cid with
-            | none => rfl
-            | some b => exact absurd (hG.store n.cid (Has_of_storeGet hg)) hnrem
-          have hdep : n.depth ≠ 0 := fun h0 => hnrem (dep n List.mem_cons_self h0)
-          obtain ⟨m1, m2, m3, m4, m5⟩ :=
-            (message_item r n post s.store it w.md w.blocks hbi pk hst (by rw [← hit']) _ hmeq).2
-              (by rw [← hit']) hnone hdep
-          constructor
-          · cases hsk : skipSub n post with
-            | nil =>
-              refine .over ?_
-              intro r' hr''
-              rw [hr'] at hr''
-              cases hr''
-              rw [m4 hsk]
-              intro hx; cases hx
-            | cons m post' =>
-              obtain ⟨k1, k2⟩ := m5 m post' hsk
-              have hwf' : WF (m :: post') := by
-                rw [← hsk]; unfold skipSub; exact WF.dropWhile _ post wf.2.2
-              have hmem : ∀ x ∈ m :: post', x ∈ post := by
-                intro x hx
-                rw [← hsk] at hx
-                exact (List.dropWhile_sublist _).subset hx
-              refine .running _ rr ws' m post' seenQ seenR wR N hr' hrr' hc' k1 ?_ hwf'
-                (fun x hx hd => by rw [f8]; exact dep x (List.mem_cons_of_mem _ (hmem x hx)) hd) ?_
-                (by rw [f7]; exact ti) rm (by rw [f8]; exact rdep) (by rw [f8, ← hsk]; exact htail) w14' wend' wok'
-              · right
-                intro x hx
-                rw [k2, ← hit']
-                simp only [Action.didFollow, Bool.false_eq_true, if_false]
-                exact wf.2.1 x (by rw [hsk]; exact hx)
-              · intro c hcm
-                rw [hS', m3]
-                exact seen c hcm
-          · intro c p hm
-            rw [f8]
-            rcases hevs c p hm with hm | hm
-            · exact he c p hm
-            · rw [m1] at hm
-              simp only [List.mem_singleton, Prod.mk.injEq] at hm
-              rw [hm.1]; exact hnrem
+        | nil =>
+          simp only [List.nil_append, List.length_nil] at al
+          have pk' : PK r n post := PK.of0 pk vs
+          rw [respItemsW] at al
+          by_cases hp : remf s.rem n.cid = true
+          · -- the responder holds the block
+            simp only [hp, if_true, List.cons.injEq] at al
+            obtain ⟨hit', htail⟩ := al
+            have hnrem : n.cid ∈ s.rem := by simpa [remf] using hp
+            have hdata : ∃ b, (it.block = some b ∨ (it.block = none ∧ storeGet s.store n.cid = some b)) := by
+              rw [← hit']
+              by_cases hsq : seenQ.contains n.cid = true
+              · have hmem : n.cid ∈ seenQ := by simpa using hsq
+                have := seen n.cid hmem
+                unfold Has at this
+                cases hg : storeGet s.store n.cid with
+                | none => rw [hg] at this; cases this
+                | some b => exact ⟨b, Or.inr ⟨by simp [hmem], rfl⟩⟩
+              · have hnm : n.cid ∉ seenQ := by simpa using hsq
+                exact ⟨n.cid, Or.inl (by simp [hnm])⟩
+            obtain ⟨b, hb⟩ := hdata
+            obtain ⟨m1, m2, m3, m4, m5⟩ :=
+              (message_item r n post s.store it w.md w.blocks hbi pk' hst (by rw [← hit']) _ hmeq).1 b hb
+            have hsub : Sub s.store (reqMsg r s.store w).1.L.store := by
+              rw [m3]
+              cases it.block with
+              | none => exact Sub.refl _
+              | some b' => exact Sub_cons_self _ _ _
+            have hhas : Has (reqMsg r s.store w).1.L.store n.cid := by
+              rw [m3]
+              rcases hb with hb | ⟨hb1, hb2⟩
+              · rw [hb]; simp only; rw [Has_cons]; exact Or.inl rfl
+              · rw [hb1]; exact Has_of_storeGet hb2
+            constructor
+            · cases post with
+              | nil =>
+                refine .over ?_
+                intro r' hr''
+                rw [hr'] at hr''
+                cases hr''
+                rw [m4 rfl]
+                intro hx; cases hx
+              | cons m post' =>
+                obtain ⟨k1, k2⟩ := m5 m post' rfl
+                refine .running _ rr ws' m post' [] (n.cid :: seenQ) seenR wR N hr' hrr' hc' k1.to0 k1.ver
+                  (fun _ hx => by cases hx) ?_ wf.2.2
+                  (fun x hx hd => by rw [f8]; exact dep x (List.mem_cons_of_mem _ hx) hd) ?_
+                  (by rw [f7]; exact ti) rm (by rw [f8]; exact rdep) (by rw [f8]; exact htail) w14' wend' wok'
+                · left
+                  rw [k2, ← hit']
+                  rfl
+                · intro c hcm
+                  rw [hS']
+                  rcases List.mem_cons.mp hcm with rfl | hcm
+                  · exact hhas
+                  · exact hsub c (seen c hcm)
+            · intro c p hm
+              rw [f8]
+              rcases hevs c p hm with hm | hm
+              · exact he c p hm
+              · rw [m1] at hm; cases hm
+          · -- the responder lacks the block
+            have hp' : remf s.rem n.cid = false := by simpa using hp
+            simp only [hp', Bool.false_eq_true, if_false, List.cons.injEq] at al
+            obtain ⟨hit', htail⟩ := al
+            have hnrem : n.cid ∉ s.rem := by simpa [remf] using hp'
+            have hnone : storeGet s.store n.cid = none := by
+              cases hg : storeGet s.store n.cid with
+              | none => rfl
+              | some b => exact absurd (hG.store n.cid (Has_of_storeGet hg)) hnrem
+            have hdep : n.depth ≠ 0 := fun h0 => hnrem (dep n List.mem_cons_self h0)
+            obtain ⟨m1, m2, m3, m4, m5⟩ :=
+              (message_item r n post s.store it w.md w.blocks hbi pk' hst (by rw [← hit']) _ hmeq).2
+                (by rw [← hit']) hnone hdep
+            constructor
+            · cases hsk : skipSub n post with
+              | nil =>
+                refine .over ?_
+                intro r' hr''
+                rw [hr'] at hr''
+                cases hr''
+                rw [m4 hsk]
+                intro hx; cases hx
+              | cons m post' =>
+                obtain ⟨k1, k2⟩ := m5 m post' hsk
+                have hwf' : WF (m :: post') := by
+                  rw [← hsk]; unfold skipSub; exact WF.dropWhile _ post wf.2.2
+                have hmem : ∀ x ∈ m :: post', x ∈ post := by
+                  intro x hx
+                  rw [← hsk] at hx
+                  exact (List.dropWhile_sublist _).subset hx
+                refine .running _ rr ws' m post' [] seenQ seenR wR N hr' hrr' hc' k1.to0 k1.ver
+                  (fun _ hx => by cases hx) ?_ hwf'
+                  (fun x hx hd => by rw [f8]; exact dep x (List.mem_cons_of_mem _ (hmem x hx)) hd) ?_
+                  (by rw [f7]; exact ti) rm (by rw [f8]; exact rdep) (by rw [f8, ← hsk]; exact htail) w14' wend' wok'
+                · right
+                  intro x hx
+                  rw [k2, ← hit']
+                  simp only [Action.didFollow, Bool.false_eq_true, if_false]
+                  exact wf.2.1 x (by rw [hsk]; exact hx)
+                · intro c hcm
+                  rw [hS', m3]
+                  exact seen c hcm
+            · intro c p hm
+              rw [f8]
+              rcases hevs c p hm with hm | hm
+              · exact he c p hm
+              · rw [m1] at hm
+                simp only [List.mem_singleton, Prod.mk.injEq] at hm
+                rw [hm.1]; exact hnrem
       · -- a wire that is not an item wire can only be the terminal status, which is behind every item
         exfalso
         cases ha : rr.active with
@@ -447,7 +486,7 @@ theorem AL_deliver (i : Nat) (s : Sys) (hG : GOK s) (h : AL i s) (he : EVM i s) 
             have : itemsOf [w] = [] := by simp [itemsOf, e3, buildItems, buildItems.go]
             rw [this] at al
             simp only [Bool.false_eq_true, if_false, List.append_nil] at al
-            exact respItemsW_ne_nil _ _ _ _ _ al
+            exact respItemsW_ne_nil _ _ (by simp) _ _ al
           | cons x iws' =>
             simp only [List.cons_append, List.cons.injEq] at e1
             obtain ⟨rfl, _⟩ := e1
@@ -480,7 +519,7 @@ theorem TI_prepare (i : Nat) (key : Option Key) : TI (prepare {} i key 0) i [] 0
 theorem AL_start (st : List (Cid × Blk)) (rem : List Cid) (lts : List LT) (keys : List (Option Key)) (i : Nat)
     (n : LNode) (rest : LT) (hl : lts[i]? = some (n :: rest)) (hst : storeGet st n.cid = none)
     (hwf : WF (n :: rest)) (hd0 : ∀ m ∈ n :: rest, m.depth = 0 → m.cid ∈ rem) :
-    AL i (Concurrent.step (initSys st rem lts keys) (.start i)) ∧
+    AL TRec.empty i (Concurrent.step (initSys st rem lts keys) (.start i)) ∧
     EVM i (Concurrent.step (initSys st rem lts keys) (.start i)) := by
   have hev0 : (initSys st rem lts keys).evs.getD i [] = [] := by
     simp [initSys, List.getD_eq_getElem?_getD, List.getElem?_map, hl]
@@ -509,7 +548,8 @@ theorem AL_start (st : List (Cid × Blk)) (rem : List Cid) (lts : List LT) (keys
   simp only [hsk]
   rw [putStore_shared B i _ hown, htr]
   constructor
-  · refine .running r' { todo := n :: rest, active := true } [] n rest [] [] 0 0 ?_ ?_ hchan hP1 (Or.inl hP2) hwf
+  · refine .running r' { todo := n :: rest, active := true } [] n rest [] [] [] 0 0 ?_ ?_ hchan hP1.to0 hP1.ver
+      (fun _ hx => by cases hx) (Or.inl hP2) hwf
       (by rw [hrem]; exact hd0) (fun c hc => by cases hc) (fun _ => TI_prepare i _) rfl (by rw [hrem]; exact hd0) ?_
       (fun _ w hw => by cases hw) (fun hx => by cases hx) (fun w hw => by cases hw)
     · exact set_self_some _ _ _ _ hreq
@@ -523,13 +563,155 @@ theorem AL_start (st : List (Cid × Blk)) (rem : List Cid) (lts : List LT) (keys
       simp [missingOf] at hm
     · simp [missingOf] at hm
 
-theorem AL_run (i : Nat) : ∀ (τ : List Act) (s : Sys), (∀ a ∈ τ, a = .resp i ∨ a = .deliver i) → GOK s → AL i s →
-    EVM i s → AL i (Concurrent.run s τ) ∧ EVM i (Concurrent.run s τ)
+theorem AL_run (R : TRec) (i : Nat) :
+    ∀ (τ : List Act) (s : Sys), (∀ a ∈ τ, a = .resp i ∨ a = .deliver i) → GOK s → AL R i s →
+    EVM i s → AL R i (Concurrent.run s τ) ∧ EVM i (Concurrent.run s τ)
   | [], _, _, _, h, e => ⟨h, e⟩
   | a :: τ, s, hτ, hG, h, e => by
-    have ih := AL_run i τ (Concurrent.step s a) (fun b hb => hτ b (List.mem_cons_of_mem _ hb)) (GOK_step s a hG).1
+    have ih := AL_run R i τ (Concurrent.step s a) (fun b hb => hτ b (List.mem_cons_of_mem _ hb)) (GOK_step s a hG).1
     rcases hτ a List.mem_cons_self with rfl | rfl
-    · exact ih (AL_resp i s h) (EVM_resp i s e)
-    · exact ih (AL_deliver i s hG h e).1 (AL_deliver i s hG h e).2
+    · exact ih (AL_resp R i s h) (EVM_resp i s e)
+    · exact ih (AL_deliver R i s hG h e).1 (AL_deliver R i s hG h e).2
+
+/-! ## the start with a locally loaded prefix of `N ≥ 1` links -/
+
+/-- the tracker after `prepareQuery` of the only request, skip `N` -/
+theorem TI_prepareN (i : Nat) (key : Option Key) (N : Nat) : TI (prepare {} i key N) i [] N N := by
+  by_cases hN : N > 0
+  · cases key with
+    | none =>
+      refine ⟨fun c => ?_, ?_, ?_⟩ <;>
+      simp [prepare, hN, PeerTracker.skipFirstBlocks, rcOf, skipOf, cnt, PeerTracker.trackerOf, PeerTracker.scopeTracker,
+        aget, aset, aerase, LinkTracker.blockRefCount]
+    | some k =>
+      refine ⟨fun c => ?_, ?_, ?_⟩ <;>
+      simp [prepare, hN, PeerTracker.skipFirstBlocks, PeerTracker.dedupKey, rcOf, skipOf, cnt, PeerTracker.trackerOf,
+        PeerTracker.scopeTracker, aget, aset, aerase, LinkTracker.blockRefCount]
+  · have : N = 0 := by omega
+    subst this
+    exact TI_prepare i key
+
+theorem missingOf_localEvs (pre : List LNode) (k : Nat) : missingOf (localEvs pre k) = [] := by
+  induction pre generalizing k with
+  | nil => rfl
+  | cons n rest ih => simp [localEvs, missingOf] at ih ⊢; exact ih (k + 1)
+
+theorem sentSkip_localEvs (pre : List LNode) (k N : Nat) : sentSkip (localEvs pre k ++ [Ev.sentNew N]) = some N := by
+  induction pre generalizing k with
+  | nil => rfl
+  | cons n rest ih => simp [localEvs, sentSkip] at ih ⊢; exact ih (k + 1)
+
+/-- issuing a request whose first `N = |root :: pre'|` links the local store holds: they are delivered
+    locally and recorded, the executor parks on the first missing link `n`, the verifier stands at the
+    beginning of the record -/
+theorem reqStart_prefix (st : List (Cid × Blk)) (root : LNode) (pre' : LT) (n : LNode) (post : LT)
+    (hheld : ∀ m ∈ root :: pre', holds st m.cid = true) (hmiss : holds st n.cid = false)
+    (hroot0 : root.path = []) (hdfs : PathsDFS ((root :: pre').map (·.path))) :
+    PK0 (reqStart {} st (root :: pre' ++ n :: post)).1 n post ∧
+    VS (recOfLT (root :: pre')) (reqStart {} st (root :: pre' ++ n :: post)).1.L (root :: pre') ∧
+    (reqStart {} st (root :: pre' ++ n :: post)).1.L.unfollowed = [] ∧
+    (reqStart {} st (root :: pre' ++ n :: post)).1.L.store = st ∧
+    (reqStart {} st (root :: pre' ++ n :: post)).2 =
+      localEvs (root :: pre') 0 ++ [Ev.sentNew (pre'.length + 1)] := by
+  obtain ⟨a, ha1, ha2, heq⟩ := request_prefix st (root :: pre') n post 0 hheld hmiss
+  have hrs : reqStart {} st (root :: pre' ++ n :: post) =
+      request { L := { store := st } } ((root :: pre') ++ n :: post) 0 := rfl
+  rw [hrs, heq]
+  -- the loader after the local phase
+  obtain ⟨_, Rf, mraf, h2, h3⟩ := local_walk st (root :: pre') TRec.empty none hheld
+  have hs0 : ({ store := st } : Loader.State) = localState st TRec.empty none := rfl
+  have hL : Loader.setOnline (Loader.load (walk ({ store := st } : Loader.State) (root :: pre')).2 n.path n.cid).1 true =
+      { store := st, record := recOfLT (root :: pre'), mra := some ⟨n.cid, n.path, false, false⟩, unfollowed := [],
+        isOpen := true, ver := some (newVerifier (recOfLT (root :: pre'))), rq := {}, pending := none } := by
+    rw [hs0, h2, load_local_miss st Rf mraf n.path n.cid hmiss, h3]
+    simp [Loader.setOnline, localState, recP, recOfLT, RQ.clear]
+  rw [hL]
+  -- the record of the prefix
+  have hloads : loadsOf (root :: pre') = ([], (root.cid, true)) :: loadsOf pre' := by
+    simp [loadsOf, hroot0]
+  have hpaths : (loadsOf (root :: pre')).map (·.1) = (root :: pre').map (·.path) := by
+    unfold loadsOf; rw [List.map_map]; rfl
+  obtain ⟨pl, hinv⟩ := recOf_inv (root.cid, true) (loadsOf pre') (by
+    rw [← hloads, hpaths]; exact hdfs)
+  rw [← hloads, ← recOfLT_eq] at hinv
+  obtain ⟨hO, hC, ⟨Al, nl, hRl, _, hnll⟩, hlk, _⟩ := hinv
+  have htip0 : tipOf (recOfLT (root :: pre')) (recOfLT (root :: pre')) = some [] :=
+    tipOf_spec hO hC (A := []) (B := recOfLT (root :: pre')) rfl (hlk.trans hloads)
+  have hnv : newVerifier (recOfLT (root :: pre')) = some [] := by
+    obtain ⟨U, nm, B2, hB, hnmp, hnml, _⟩ := linkedOf_cons_split _ _ _ _ (hlk.trans hloads)
+    have := linkAt_at hO (A := U) hB
+    rw [hnmp, hnml] at this
+    unfold newVerifier
+    rw [appendUntilLink_linked [] _ this]
+  refine ⟨⟨rfl, rfl, rfl, rfl, ?_, rfl, rfl⟩, ⟨hO, hC, ⟨Al, nl, hRl, hnll⟩, [], _, rfl, rfl, hlk, ?_⟩, rfl, rfl, ?_⟩
+  · show some (a.path, a.link) = some (n.path, n.cid)
+    rw [ha1, ha2]
+  · show some (newVerifier (recOfLT (root :: pre'))) = some (tipOf (recOfLT (root :: pre')) (recOfLT (root :: pre')))
+    rw [hnv, htip0]
+  · simp
+
+theorem AL_start_prefix (st : List (Cid × Blk)) (rem : List Cid) (lts : List LT) (keys : List (Option Key)) (i : Nat)
+    (root : LNode) (pre' : LT) (n : LNode) (post : LT)
+    (hl : lts[i]? = some (root :: pre' ++ n :: post))
+    (hst : ∀ c, (storeGet st c).isSome = true → c ∈ rem)
+    (hheld : ∀ m ∈ root :: pre', holds st m.cid = true) (hmiss : holds st n.cid = false)
+    (hroot0 : root.path = []) (hdfs : PathsDFS ((root :: pre').map (·.path)))
+    (hwf : Loader.WF (root :: pre' ++ n :: post))
+    (hd0 : ∀ m ∈ root :: pre' ++ n :: post, m.depth = 0 → m.cid ∈ rem) :
+    AL (recOfLT (root :: pre')) i (Concurrent.step (initSys st rem lts keys) (.start i)) ∧
+    EVM i (Concurrent.step (initSys st rem lts keys) (.start i)) := by
+  have hev0 : (initSys st rem lts keys).evs.getD i [] = [] := by
+    simp [initSys, List.getD_eq_getElem?_getD, List.getElem?_map, hl]
+  have hreq : (initSys st rem lts keys).reqs[i]? = some {} := by
+    simp only [initSys, List.getElem?_map, hl, Option.map_some]
+  have hlt : (initSys st rem lts keys).lts[i]? = some (root :: pre' ++ n :: post) := hl
+  have hresp : (initSys st rem lts keys).resp[i]? = some {} := by
+    simp only [initSys, List.getElem?_map, hl, Option.map_some]
+  have hchan : (initSys st rem lts keys).chan[i]? = some [] := by
+    simp only [initSys, List.getElem?_map, hl, Option.map_some]
+  have hown : (initSys st rem lts keys).own = [] := rfl
+  have hstore : (initSys st rem lts keys).store = st := rfl
+  have htr : (initSys st rem lts keys).tracker = {} := rfl
+  have hrem : (initSys st rem lts keys).rem = rem := rfl
+  generalize initSys st rem lts keys = B at hreq hlt hresp hchan hown hstore htr hrem hev0
+  simp only [Concurrent.step, hreq, hlt]
+  have hph : (({} : Requestor.State).phase != Phase.idle) = false := rfl
+  rw [if_neg (by rw [hph]; simp)]
+  rw [storeOf_shared B i hown, hstore]
+  obtain ⟨hP1, hP2, hP3, hP4, hP5⟩ := reqStart_prefix st root pre' n post hheld hmiss hroot0 hdfs
+  generalize reqStart {} st (root :: pre' ++ n :: post) = rq at hP1 hP2 hP3 hP4 hP5
+  obtain ⟨r', ev⟩ := rq
+  simp only at hP1 hP2 hP3 hP4 hP5 ⊢
+  subst hP5
+  simp only [sentSkip_localEvs]
+  rw [putStore_shared B i _ hown, htr]
+  have hwf' : Loader.WF (n :: post) := by
+    have : Loader.WF ((root :: pre') ++ n :: post) := hwf
+    exact WF.suffix (root :: pre') this
+  constructor
+  · refine .running r' { todo := root :: pre' ++ n :: post, active := true } [] n post (root :: pre') [] []
+      (pre'.length + 1) (pre'.length + 1) ?_ ?_ hchan hP1 hP2 ?_ (Or.inl hP3) hwf' ?_
+      (fun c hc => by cases hc) (fun _ => TI_prepareN i (B.keys.getD i none) (pre'.length + 1)) rfl (by rw [hrem]; exact hd0) ?_
+      (fun _ w hw => by cases hw) (fun hx => by cases hx) (fun w hw => by cases hw)
+    · exact set_self_some _ _ _ _ hreq
+    · exact set_self_some _ _ _ _ hresp
+    · intro m hm
+      refine ⟨?_, ?_⟩
+      · rw [hrem]; exact hst m.cid (hheld m hm)
+      · simp only [storeOf, hown, List.getD_nil]
+        rw [hP4]
+        exact hheld m hm
+    · intro m hm hd
+      rw [hrem]
+      exact hd0 m (List.mem_append_right (root :: pre') hm) hd
+    · simp [itemsOf]
+  · intro c p hm
+    exfalso
+    simp only [setAt] at hm
+    rcases mem_missing_set _ _ _ _ hm with hm | hm
+    · rw [hev0] at hm
+      simp [missingOf] at hm
+    · rw [missingOf_append, missingOf_localEvs] at hm
+      simp [missingOf] at hm
 
 end GS.C20
